@@ -8,6 +8,11 @@
 #include <algorithm>
 #include <iterator>
 
+#if defined BLUETOE_VERIF
+// verification hook: a scheduler can run the other context between the load and the store of a queue byte
+extern "C" void bluetoe_verif_yield();
+#endif
+
 namespace bluetoe {
 
     namespace details {
@@ -239,7 +244,11 @@ namespace bluetoe {
                 assert( byte_offset < sizeof( queue_ ) / sizeof( queue_[ 0 ] ) );
 
                 const bool result = ( queue_[ byte_offset ] & ( bits << bit_offset ) ) == 0;
+#if defined BLUETOE_VERIF
+                { const std::uint8_t verif_loaded = queue_[ byte_offset ]; bluetoe_verif_yield(); queue_[ byte_offset ] = verif_loaded | ( bits << bit_offset ); }
+#else
                 queue_[ byte_offset ] |= bits << bit_offset;
+#endif
 
                 return result;
             }
@@ -251,7 +260,11 @@ namespace bluetoe {
                 const auto byte_offset = index * bits_per_characteristc / 8;
                 assert( byte_offset < sizeof( queue_ ) / sizeof( queue_[ 0 ] ) );
 
+#if defined BLUETOE_VERIF
+                { const std::uint8_t verif_loaded = queue_[ byte_offset ]; bluetoe_verif_yield(); queue_[ byte_offset ] = verif_loaded & ~( bits << bit_offset ); }
+#else
                 queue_[ byte_offset ] &= ~( bits << bit_offset );
+#endif
             }
 
             static constexpr std::size_t bits_per_characteristc = 2;
